@@ -400,8 +400,9 @@ def translate(path, fname, coq_name):
     return f"Definition {coq_name} {args} : res pv :=\n  {text}.\n"
 
 
-def translate_assigned_expr(path, fname, target, coq_name, params):
-    """the expression assigned to `target` (exactly one such assignment) inside function `fname`, as a function of `params`"""
+def translate_assigned_expr(path, fname, target, coq_name, params, callees=None, const_classes=()):
+    """the expression assigned to `target` (exactly one such assignment) inside function `fname`, as a function of `params`;
+    with `callees` / `const_classes` the expression may call already translated module functions and read integer class constants"""
     mod = ast.parse((core.REPO / path).read_text())
     fns = [n for n in ast.walk(mod) if isinstance(n, ast.FunctionDef) and n.name == fname]
     if len(fns) != 1:
@@ -410,10 +411,20 @@ def translate_assigned_expr(path, fname, target, coq_name, params):
                and n.targets[0].id == target]
     if len(assigns) != 1:
         raise FunError(f"assignment to {target} not found exactly once in {fname}")
-    free = {n.id for n in ast.walk(assigns[0].value) if isinstance(n, ast.Name)} - {"len", "int"}
+    consts = {}
+    for cn in const_classes:
+        classes = [n for n in mod.body if isinstance(n, ast.ClassDef) and n.name == cn]
+        if len(classes) != 1:
+            raise FunError(f"class {cn} not found exactly once")
+        for n in classes[0].body:
+            if (isinstance(n, ast.Assign) and len(n.targets) == 1 and isinstance(n.targets[0], ast.Name) and isinstance(n.value, ast.Constant)
+                    and isinstance(n.value.value, int) and not isinstance(n.value.value, bool)):
+                consts[(cn, n.targets[0].id)] = n.value.value
+    free = {n.id for n in ast.walk(assigns[0].value) if isinstance(n, ast.Name)} - {"len", "int"} - set(callees or {}) - set(const_classes)
     if not free <= set(params):
         raise FunError(f"expression for {target} uses names outside {params}: {sorted(free - set(params))}")
-    text = Tr().expr(assigns[0].value, lambda v: f"Ok {v}")
+    tr = TrP(callees or {}, {}, consts) if (callees or const_classes) else Tr()
+    text = tr.expr(assigns[0].value, lambda v: f"Ok {v}")
     args = " ".join(f"({p} : pv)" for p in params)
     return f"Definition {coq_name} {args} : res pv :=\n  {text}.\n"
 
